@@ -553,6 +553,8 @@ def main() -> int:
             t, n = make_copy(files, grp, fam)
             try:
                 if n == 0:
+                    if not per_file:
+                        print('%-60s %4d rewrites  (nothing on this tree has that form)' % ('%s (%d modules)' % (fam, len(grp)), 0))
                     continue
                 alarms = run_checks(t)
                 real = {}
